@@ -39,6 +39,15 @@ func (l *filterRuleList) matches(name string) bool {
 	return false
 }
 
+// Matches reports whether the filter rules exclude name. A receiver uses it
+// to protect excluded files from --delete.
+func (l *filterRuleList) Matches(name string) bool {
+	if l == nil {
+		return false
+	}
+	return l.matches(name)
+}
+
 // exclude.c:recv_filter_list
 func RecvFilterList(c *rsyncwire.Conn) (*filterRuleList, error) {
 	var l filterRuleList
